@@ -16,6 +16,7 @@ mod eng_cache;
 mod eng_load;
 mod eng_conc;
 mod eng_hr;
+mod eng_own;
 mod eng_bytes;
 mod eng_watch;
 mod srctree;
@@ -26,6 +27,7 @@ mod child;
 mod eng_hrlive;
 mod eng_idle;
 mod eng_fault;
+mod eng_iso;
 
 use common::*;
 use std::{fs, io::Write, path::PathBuf};
@@ -37,6 +39,7 @@ fn engines() -> Vec<Box<dyn Engine>> {
     v.push(Box::new(eng_load::LoadEngine::default()));
     v.push(Box::new(eng_conc::ConcEngine::default()));
     v.push(Box::new(eng_hr::HrEngine::default()));
+    v.push(Box::new(eng_own::OwnEngine::default()));
     v.push(Box::new(eng_bytes::BytesEngine::default()));
     v.push(Box::new(eng_watch::WatchEngine::default()));
     v.push(Box::new(eng_src::SrcEngine::default()));
@@ -45,6 +48,7 @@ fn engines() -> Vec<Box<dyn Engine>> {
     v.push(Box::new(eng_hrlive::HrLiveEngine));
     v.push(Box::new(eng_idle::IdleEngine));
     v.push(Box::new(eng_fault::FaultEngine));
+    v.push(Box::new(eng_iso::IsoEngine::default()));
     v
 }
 
